@@ -382,6 +382,7 @@ func checkC10(c *Ctx, r *Report) {
 	// is terminal inside a session) nor sends on its own (rule shared with C11, C09)
 	checkOneWriteOneRead(c, r)
 	checkSendSites(c, r)
+	checkContextUndiminished(c, r)
 }
 
 // lateFailure: the path classified the completion code as final and then found a call's error
